@@ -488,8 +488,6 @@ def merge_contracts(cs):
             out['funcs'][k] = v
             for (gname, binders, ast, txt) in v.get('ghostsets', []):
                 if binders:
-                    import os
-                    f_ = c.get('file') or ''
-                    pk = os.path.dirname(f_[len('/repo/'):]) if f_.startswith('/repo/') else ''
+                    pk = _pkg_of_file(c.get('file')) or ''
                     out.setdefault('ghostfuncs', {})[gname] = (binders, pk)
     return out
